@@ -7,6 +7,7 @@
 //!   `[1, handle, ty, fail_at, value..]`  serialize  -> `[status, code, at, same_as_plain, SEP, calls..]`
 //!   `[2, handle, ty, fail_at, value..]`  deserialize -> `[status, code, at, same_as_plain, count, unique, extra_allocs,
 //!                                         live_after, bad, dtors, SEP, calls..]`
+//!   `[4, handle, ty, fail_at, value1.., value2..]`  deserialize_in_place into a (shared) handle holding value1
 //!   `[3, handle, which]`                 serde's own in-memory value deserializers -> `[status, same_as_plain, count,
 //!                                         unique, extra_allocs, live_after, bad]`
 //! handle: 0 Arc, 1 UniqueArc.  status: 0 Ok, 1 Err.  code: 1 injected failure, 2 invalid type, 3 invalid length,
@@ -706,6 +707,60 @@ where
     out
 }
 
+/// `[4, handle, ty, fail_at, value1.., value2..]`: `Deserialize::deserialize_in_place` (serde's public, doc-hidden entry
+/// point used for fields that already hold a value) into a handle built from value1 that (for Arc) has a second owner.
+/// -> `[status, code, at, witness_unchanged, place_value_ok, place_count, witness_count, same_allocation, bad, SEP, calls..]`
+fn inplace_op<T>(handle: u64, fail: u64, v1: &Val, v2: &Val) -> Vec<u64>
+where
+    T: PartialEq + for<'de> Deserialize<'de>,
+{
+    reset(0);
+    let build = |v: &Val| T::deserialize(ValDe(v));
+    let (old_ref, old_val) = match (build(v1), build(v1)) {
+        (Ok(a), Ok(b)) => (a, b),
+        _ => return vec![97],
+    };
+    let _ = talloc::drain();
+    reset(0);
+    let want_new = build(v2).ok();
+    reset(fail);
+    let out;
+    if handle == 0 {
+        let mut place = Arc::new(old_val);
+        let witness = place.clone();
+        talloc::record(true);
+        let r = <Arc<T> as Deserialize>::deserialize_in_place(ValDe(v2), &mut place);
+        talloc::record(false);
+        let evs = talloc::drain();
+        let st = err_obs(&r.as_ref().map(|_| ()).map_err(|e| e.clone()));
+        let witness_ok = *witness == old_ref;
+        let place_ok = match (&r, &want_new) {
+            (Ok(()), Some(n)) => *place == *n,
+            (Ok(()), None) => false,
+            (Err(_), _) => *place == old_ref,
+        };
+        out = vec![st[0], st[1], st[2], witness_ok as u64, place_ok as u64, Arc::count(&place) as u64, Arc::count(&witness) as u64, Arc::ptr_eq(&place, &witness) as u64, bad_events(&evs)];
+    } else {
+        let mut place = UniqueArc::new(old_val);
+        talloc::record(true);
+        let r = <UniqueArc<T> as Deserialize>::deserialize_in_place(ValDe(v2), &mut place);
+        talloc::record(false);
+        let evs = talloc::drain();
+        let st = err_obs(&r.as_ref().map(|_| ()).map_err(|e| e.clone()));
+        let place_ok = match (&r, &want_new) {
+            (Ok(()), Some(n)) => *place == *n,
+            (Ok(()), None) => false,
+            (Err(_), _) => *place == old_ref,
+        };
+        let a = place.shareable();
+        out = vec![st[0], st[1], st[2], 1, place_ok as u64, Arc::count(&a) as u64, 0, 0, bad_events(&evs)];
+    }
+    let mut out = out;
+    out.push(SEP);
+    out.extend(take_log());
+    out
+}
+
 fn value_op(handle: u64, which: u64) -> Vec<u64> {
     use serde::de::value::{Error as VE, SeqDeserializer, StrDeserializer, StringDeserializer, U32Deserializer, UnitDeserializer};
     fn go<T, D, F>(handle: u64, mk: F) -> Vec<u64>
@@ -784,8 +839,21 @@ fn run1(op: &[u64]) -> Vec<u64> {
     if op[0] == 3 {
         return if op.len() == 3 { value_op(op[1], op[2]) } else { vec![99] };
     }
-    if op.len() < 5 || (op[0] != 1 && op[0] != 2) || op[3] > 10000 {
+    if op.len() < 5 || (op[0] != 1 && op[0] != 2 && op[0] != 4) || op[3] > 10000 {
         return vec![99];
+    }
+    if op[0] == 4 {
+        let mut i = 4;
+        let v1 = match parse_val(op, &mut i, 0) {
+            Some(v) => v,
+            None => return vec![99],
+        };
+        let v2 = match parse_val(op, &mut i, 0) {
+            Some(v) if i == op.len() => v,
+            _ => return vec![99],
+        };
+        let (handle, ty, fail) = (op[1], op[2], op[3]);
+        return by_type!(ty, inplace_op, handle, fail, &v1, &v2);
     }
     let mut i = 4;
     let val = match parse_val(op, &mut i, 0) {
